@@ -371,7 +371,8 @@ class Session:
         self.extra = extra_patches
 
     def _protect(self, fn, description, tol):
-        return self.table[id(self.an._analyzed_system)]
+        # 2D inputs are analysed through a vacuum-padded copy: look the dataset up by the original system
+        return self.table[id(self.an._original_system)]
 
     @contextlib.contextmanager
     def active(self):
@@ -443,7 +444,7 @@ class RealSession:
         self.an = None
 
     def _protect(self, fn, description, tol):
-        return self.table[id(self.an._analyzed_system)]
+        return self.table[id(self.an._original_system)]
 
     @contextlib.contextmanager
     def active(self):
